@@ -478,5 +478,5 @@ Proof. destruct c; cbn [encode]; try apply encode_t_no_panic. apply encode_jp_no
 
 Lemma rt_observed :
   rt_bad_ascii = [] /\ rt_bad_latin1 = [] /\ rt_bad_cyrillic = [] /\ rt_bad_hebrew = [] /\ rt_bad_ucs2 = [] /\
-  rt_bad_sjis = [] /\ rt_bad_eucjp = [] /\ rt_bad_euckr = [] /\ rt_bad_iso2022jp = [27].
+  rt_bad_sjis = [] /\ rt_bad_eucjp = [] /\ rt_bad_euckr = [] /\ rt_bad_iso2022jp = [27] /\ unparsed_iso2022jp = [].
 Proof. repeat split; reflexivity. Qed.
